@@ -23,7 +23,7 @@ sys.path.insert(0, os.path.dirname(os.path.abspath(__file__)))
 from lib import *   # noqa
 import props
 
-LEAN = os.path.join(VERIF, 'lean')
+LEAN = LEAN_DIR
 EVID = os.path.join(VERIF, 'evidence')
 REPLAYS = os.path.join(VERIF, 'replays')
 KNOWN = os.path.join(VERIF, 'known_findings.json')
@@ -47,7 +47,7 @@ def build_impl(release=False):
     cmd = ['cargo', 'build', '--offline', '--target-dir', os.path.join(BUILD, 'cargo')]
     if release:
         cmd.append('--release')
-    rc, out = sh(cmd, cwd='/repo', env={'RUSTFLAGS': '--cfg masscanned_verif'})
+    rc, out = sh(cmd, cwd=REPO, env={'RUSTFLAGS': '--cfg masscanned_verif'})
     return rc, out
 
 
@@ -328,8 +328,8 @@ def main():
     def finish():
         ev['wall_s'] = round(time.time() - t0, 2)
         # which tree was checked: commit of /repo and whether its working tree differs from it
-        rc1, head = sh(['git', '-C', '/repo', 'rev-parse', '--short', 'HEAD'])
-        rc2, dirty = sh(['git', '-C', '/repo', 'status', '--porcelain', '--untracked-files=no'])
+        rc1, head = sh(['git', '-C', REPO, 'rev-parse', '--short', 'HEAD'])
+        rc2, dirty = sh(['git', '-C', REPO, 'status', '--porcelain', '--untracked-files=no'])
         ev['coverage']['checked_tree'] = {'repo_head': head.strip() if rc1 == 0 else None,
                                           'working_tree_modified': bool(dirty.strip()) if rc2 == 0 else None}
         ev['violations'] = len(violations)
